@@ -1,6 +1,6 @@
 (* Lemmas about Model/Setup.v needed by C17: what Eups.setup does with a table whose setup actions
    all carry -j and whose decisions are the explicit versions (the exact reading of an expanded table). *)
-From Eupsv Require Import Base.Base Base.BaseLemmas Model.PathAlg Model.Setup Model.Expand Proofs.Expand.
+From Eupsv Require Import Base.Base Base.BaseLemmas Model.PathAlg Model.Setup Model.Expand Proofs.PathAlg Proofs.Expand.
 From Coq Require Import Lia.
 
 Definition is_setup_var (k : str) : bool := starts_with (lit "SETUP_") k.
@@ -82,6 +82,9 @@ Definition sane (n : str) : Prop := is_setup_var (dir_var n) = false.
 Section Replay.
 Variables (w : world) (cfg : config).
 Hypothesis Hmd : c_max_depth cfg = None.          (* no --max-depth *)
+
+Lemma setup_S f : setup w cfg (S f) = setup_step w cfg (setup w cfg f).
+Proof. reflexivity. Qed.
 
 Lemma cut_off_plain just d : cut_off cfg just d = just.
 Proof. unfold cut_off. rewrite Hmd. apply orb_false_r. Qed.
@@ -207,7 +210,11 @@ Proof.
       { intros x I. rewrite V1 by apply setup_var_is. now apply Fr. }
       exists st'. split; [now rewrite R1|]. eapply sv_eq_trans; [exact V'|]. now apply set_pins_sv.
     + (* a pin *)
-      cbn [exact_actions pins_of] in *. cbn [pin_decisions map app]. fold (pin_decisions (pins_of V)).
+      change (exact_actions interp (OPin optional name version :: V) ++ tail)
+        with (ASetup optional name true :: (exact_actions interp V ++ tail)).
+      change (pin_decisions (pins_of (OPin optional name version :: V)) ++ ds)
+        with (Some version :: (pin_decisions (pins_of V) ++ ds)).
+      change (pins_of (OPin optional name version :: V)) with ((name, version, optional) :: pins_of V) in *.
       destruct (Hd name version optional (or_introl eq_refl)) as [p [Fp Qp]].
       assert (Sn : sane name) by (apply (Hs (name, version, optional)); now left).
       assert (Fn : alookup (setup_var name) (s_env st) = None) by (apply (Fr (name, version, optional)); now left).
@@ -222,9 +229,7 @@ Proof.
         - intro E. apply Nx. apply setup_var_inj in E.
           apply in_map_iff. exists x. split; [exact E|assumption]. }
       exists st'. split.
-      * change ((ASetup optional name true :: exact_actions interp V) ++ tail)
-          with (ASetup optional name true :: (exact_actions interp V ++ tail)).
-        cbn [run_actions]. rewrite cut_off_plain. cbn [app]. rewrite R1. exact R.
+      * cbn [run_actions]. rewrite cut_off_plain, R1. exact R.
       * eapply sv_eq_trans; [exact V'|]. simpl. now apply set_pins_sv.
 Qed.
 
@@ -256,7 +261,7 @@ Lemma replay f interp V absent top topv ptop st0 :
 Proof.
   intros Hi Ft Ha Hd St Hs ND Fr0 Fr.
   inversion ND as [|? ? Nt NDl]; subst.
-  cbn [setup]. unfold setup_step at 1. unfold forced_decisions. rewrite Ft, (not_set_up st0 top Fr0).
+  rewrite (setup_S (S f)). unfold setup_step at 1. unfold forced_decisions. rewrite Ft, (not_set_up st0 top Fr0).
   cbn [same_product andb]. rewrite Ha.
   destruct (run_exact f interp Hi V (map absent_action absent) (set_product_vars cfg st0 top ptop)
                       (map (fun _ => None) absent) Hd Hs NDl) as [st' [R V']].
@@ -264,9 +269,127 @@ Proof.
     rewrite alookup_aset_other; [now apply Fr|].
     intro E. apply Nt. apply setup_var_inj in E. apply in_map_iff. exists x. split; [exact E|assumption]. }
   exists st'. split.
-  - fold (pin_decisions (pins_of V)). rewrite R. apply run_absent.
+  - etransitivity; [exact R|apply run_absent].
   - eapply sv_eq_trans; [exact V'|]. apply set_pins_sv.
     apply find_pv_some in Ft. destruct Ft as [_ <-]. now apply product_vars_sv.
 Qed.
 
 End Replay.
+
+(* ------------------------------------------------------------ expansion and replay composed *)
+
+Lemma in_pins_of n v o : forall l, In (n, v, o) (pins_of l) -> In (OPin o n v) l.
+Proof.
+  induction l as [|x l IH]; intro I; [contradiction|]. destruct x; simpl in I; try (right; now apply IH).
+  destruct I as [E|I]; [inversion E; subst; now left|right; now apply IH].
+Qed.
+
+Lemma setup_var_upper n m : upper_str n = upper_str m -> setup_var n = setup_var m.
+Proof. unfold setup_var. now intros ->. Qed.
+
+Lemma replay_records jf sf w e top plist force rd ls out w' cfg interp ptop topv absent fuel st0 :
+  expand_gen jf sf w e top plist force rd ls = Ok out ->
+  c_max_depth cfg = None ->
+  find_pv w' top topv = Some ptop ->
+  p_actions ptop = exact_actions interp (exact_view out) ++ map absent_action absent ->
+  (forall t, Forall simple_action (interp t)) ->
+  (forall n v o, In (n, v, o) (pins_of out) ->
+     exists p, find_pv w' n v = Some p /\ Forall quiet_action (p_actions p)) ->
+  sane top -> (forall x, In x (pins_of out) -> sane (pin_name x)) ->
+  NoDup (upper_str top :: map (fun x => upper_str (pin_name x)) (pins_of out)) ->
+  alookup (setup_var top) (s_env st0) = None ->
+  (forall x, In x (pins_of out) -> alookup (setup_var (pin_name x)) (s_env st0) = None) ->
+  2 <= fuel ->
+  exists st',
+    setup w' cfg fuel st0 (forced_decisions topv (pins_of out) absent) top true 0 false = RDone true st' [] /\
+    alookup (setup_var top) (s_env st') = Some (setup_string cfg top topv) /\
+    (forall n v o, In (n, v, o) (pins_of out) ->
+       alookup (setup_var n) (s_env st') = Some (setup_string cfg n v) /\
+       (recorded e n v \/ alookup n plist = Some v)) /\
+    (forall m, upper_str m <> upper_str top ->
+       (forall x, In x (pins_of out) -> upper_str (pin_name x) <> upper_str m) ->
+       alookup (setup_var m) (s_env st') = alookup (setup_var m) (s_env st0)).
+Proof.
+  intros E Hmd Ft Ha Hi Hd St Hs ND Fr0 Fr Hf.
+  destruct fuel as [|[|f]]; try lia.
+  pose proof (exact_view_pins jf sf w e top plist force rd ls out E) as PV. fold (exact_view out) in PV.
+  pose proof (replay w' cfg Hmd f interp (exact_view out) absent top topv ptop st0) as RP.
+  rewrite PV in RP. destruct (RP Hi Ft Ha Hd St Hs ND Fr0 Fr) as [st' [R V']]. clear RP.
+  inversion ND as [|? ? Nt NDl]; subst.
+  assert (Out : forall x, In x (pins_of out) -> setup_var (pin_name x) <> setup_var top).
+  { intros x I Ex. apply Nt. apply setup_var_inj in Ex. rewrite <- Ex.
+    apply in_map_iff. exists x. split; [reflexivity|assumption]. }
+  exists st'. split; [exact R|]. split; [|split].
+  - rewrite V' by apply setup_var_is. rewrite set_pins_out by exact Out. apply alookup_aset_same.
+  - intros n v o I. split.
+    + rewrite V' by apply setup_var_is. eapply set_pins_in; eauto.
+    + eapply pins_sound; [exact E|]. eapply in_pins_of. exact I.
+  - intros m Nm Np. rewrite V' by apply setup_var_is. rewrite set_pins_out.
+    + apply alookup_aset_other. intro Ex. apply Nm. now apply setup_var_inj.
+    + intros x I Ex. apply (Np x I). now apply setup_var_inj.
+Qed.
+
+Lemma reproduces jf sf w e top force rd ls out w' cfg interp ptop topv absent fuel st0 :
+  expand_gen jf sf w e top [] force rd ls = Ok out ->
+  (forall n v, recorded e n v -> upper_str n <> upper_str top ->
+     exists x, In x (pins_of out) /\ upper_str (pin_name x) = upper_str n /\ snd (fst x) = v) ->
+  c_max_depth cfg = None ->
+  find_pv w' top topv = Some ptop ->
+  p_actions ptop = exact_actions interp (exact_view out) ++ map absent_action absent ->
+  (forall t, Forall simple_action (interp t)) ->
+  (forall n v o, In (n, v, o) (pins_of out) ->
+     exists p, find_pv w' n v = Some p /\ Forall quiet_action (p_actions p)) ->
+  sane top -> (forall x, In x (pins_of out) -> sane (pin_name x)) ->
+  NoDup (upper_str top :: map (fun x => upper_str (pin_name x)) (pins_of out)) ->
+  (forall m, alookup (setup_var m) (s_env st0) = None) ->
+  2 <= fuel ->
+  exists st',
+    setup w' cfg fuel st0 (forced_decisions topv (pins_of out) absent) top true 0 false = RDone true st' [] /\
+    alookup (setup_var top) (s_env st') = Some (setup_string cfg top topv) /\
+    (forall n v, recorded e n v -> upper_str n <> upper_str top ->
+       exists n', upper_str n' = upper_str n /\
+                  alookup (setup_var n) (s_env st') = Some (setup_string cfg n' v)) /\
+    (forall m, alookup (setup_var m) (s_env st') <> None -> upper_str m <> upper_str top ->
+       exists n v, setup_var n = setup_var m /\ recorded e n v /\
+                   alookup (setup_var m) (s_env st') = Some (setup_string cfg n v)).
+Proof.
+  intros E Cov Hmd Ft Ha Hi Hd St Hs ND Fr Hf.
+  destruct (replay_records jf sf w e top [] force rd ls out w' cfg interp ptop topv absent fuel st0
+              E Hmd Ft Ha Hi Hd St Hs ND (Fr top) (fun x _ => Fr (pin_name x)) Hf) as [st' [R [Rt [Rp Ro]]]].
+  exists st'. split; [exact R|]. split; [exact Rt|]. split.
+  - intros n v Rn Nn. destruct (Cov n v Rn Nn) as [[[xn xv] xo] [Ix [Ux Vx]]]. simpl in Ux, Vx. subst xv.
+    exists xn. split; [exact Ux|]. rewrite <- (setup_var_upper xn n Ux). apply (Rp xn v xo Ix).
+  - intros m Hm Nm.
+    destruct (in_dec str_eq_dec (upper_str m) (map (fun x => upper_str (pin_name x)) (pins_of out))) as [I|N].
+    + apply in_map_iff in I. destruct I as [[[xn xv] xo] [Ux Ix]]. simpl in Ux.
+      destruct (Rp xn xv xo Ix) as [L S]. exists xn, xv. split; [now apply setup_var_upper|].
+      split; [destruct S as [S|S]; [exact S|discriminate]|].
+      now rewrite <- (setup_var_upper xn m Ux).
+    + exfalso. apply Hm. rewrite Ro; [apply Fr|exact Nm|].
+      intros x Ix Ex. apply N. apply in_map_iff. exists x. split; assumption.
+Qed.
+
+(* ------------------------------------------------------------ helpers for concrete instances *)
+
+Lemma aset_literal_ok k v :
+  is_setup_var k = false -> mem_ascii c_dollar v = false -> benign (ASet k v) /\ succeeds (ASet k v).
+Proof.
+  intros Hk Hv. split; [exact Hk|]. intro st. cbn [exec_simple]. unfold env_set. rewrite (expand_nodollar _ v Hv).
+  cbn [bind]. destruct v; eexists; reflexivity.
+Qed.
+
+Lemma aalias_ok k v : benign (AAlias k v) /\ succeeds (AAlias k v).
+Proof. split; [exact I|]. intro st. eexists; reflexivity. Qed.
+
+Lemma alookup_In {V} k (m : amap V) v : alookup k m = Some v -> In (k, v) m.
+Proof.
+  induction m as [|[k' v'] m IH]; simpl; [discriminate|]. destruct (str_eqb k k') eqn:E.
+  - apply str_eqb_eq in E. subst. intro H; inversion H; subst. now left.
+  - intro H. right. now apply IH.
+Qed.
+
+Lemma recorded_in e n v : recorded e n v -> exists val, In (setup_var n, val) e /\ recorded_version val = Some v.
+Proof.
+  unfold recorded, setup_version. destruct (alookup (setup_var n) e) as [val|] eqn:A; [|discriminate].
+  intro R. exists val. split; [now apply alookup_In|exact R].
+Qed.
